@@ -16,6 +16,10 @@ class CleanSem(Semantics):
         self.ctx = ctx
         self.deleting = deleting  # callee keys that reach FS_DELETE
         self.events = []
+        self.selections = []  # (targets domain, all domain, [filter texts]) at the filter_generic call
+        from ..astutil import single_assignments
+        self._table = {k: v for k, v in single_assignments(finfo.node).items()
+                       if k not in ("graph", "workflow", "fs", "ctx", "targets", "all", "force", "matches", "spec_hashes", "backend", "filters")}
         self.loops = {}  # loop var -> iter text
         for n in walk_no_nested(finfo.node):
             if isinstance(n, ast.For) and isinstance(n.target, ast.Name):
@@ -44,8 +48,16 @@ class CleanSem(Semantics):
         if isinstance(node, tuple):
             return state
         s = state
+        from ..astutil import expand
         for c in _calls(node):
             cn = self.index.canon(c.func, self.module) if isinstance(c.func, (ast.Name, ast.Attribute)) else None
+            if isinstance(c.func, ast.Attribute) and c.func.attr == "append" and c.args and isinstance(c.args[0], ast.Call) and dotted(c.args[0].func) in (
+                    "NameFilter", "EndpointFilter", "StatusFilter"):
+                txt = expand(self.finfo.node, c.args[0], self._table).replace('"', "'")
+                s = s.with_fact("filters", tuple(s.facts.get("filters", ())) + (txt,))
+            if cn == "gwf.filtering.filter_generic":
+                self.selections.append((s.vars.get("targets", frozenset(["EMPTY", "NONEMPTY"])), s.vars.get("all", frozenset([False, True])),
+                                        tuple(s.facts.get("filters", ())), ast.unparse(c)))
             if cn == "click.confirm":
                 ab = any(k.arg == "abort" and isinstance(k.value, ast.Constant) and k.value.value is True for k in c.keywords)
                 s = s.with_fact("prompted", "abort" if ab else "noabort").note(node, "confirmation prompt")
@@ -62,6 +74,10 @@ class CleanSem(Semantics):
         e, neg = expr, False
         if isinstance(e, ast.UnaryOp) and isinstance(e.op, ast.Not):
             e, neg = e.operand, True
+        if isinstance(e, ast.Name) and e.id in self._table:
+            e = self._table[e.id]  # is_protected = path in target.protected()
+            if isinstance(e, ast.UnaryOp) and isinstance(e.op, ast.Not):
+                e, neg = e.operand, not neg
         if isinstance(e, ast.Compare) and len(e.ops) == 1 and isinstance(e.ops[0], (ast.In, ast.NotIn)):
             right = ast.unparse(e.comparators[0])
             if right.endswith(".protected()"):
@@ -133,26 +149,28 @@ def run(ctx):
             r1.ok(ccon + "::delete", f"delete({var}) for {var} in {it}, {tvar} in matches, not protected", where)
 
     # ---------------- R2 selection
-    r2 = ctx.rule("R2", "selection: name filter iff targets given; endpoints excluded unless --all", min_instances=3)
-    filt = {}
-    for n in walk_no_nested(clean.node):
-        if isinstance(n, ast.If):
-            for c in _calls(n):
-                if isinstance(c.func, ast.Attribute) and c.func.attr == "append" and c.args and isinstance(c.args[0], ast.Call):
-                    filt[dotted(c.args[0].func)] = (ast.unparse(n.test), c.args[0])
-    nf = filt.get("NameFilter")
-    r2.check(nf is not None and nf[0] == "targets" and any(k.arg == "patterns" and dotted(k.value) == "targets" for k in nf[1].keywords),
-             ccon + "::NameFilter", "NameFilter(patterns=targets) iff targets given", f"the name filter is not applied exactly when targets are given ({nf[0] if nf else None})", clean.where)
-    ef = filt.get("EndpointFilter")
-    ok = ef is not None and ef[0] == "not all"
-    if ok:
-        kws = {k.arg: ast.unparse(k.value) for k in ef[1].keywords}
-        ok = kws.get("endpoints") == "graph.endpoints()" and kws.get("mode") == "'exclude'"
-    r2.check(ok, ccon + "::EndpointFilter", "EndpointFilter(graph.endpoints(), mode='exclude') iff not --all",
-             "without --all the outputs of endpoint targets must be kept: the endpoint exclusion filter is missing, inverted or not tied to `not all`", clean.where)
-    m_ok = any(isinstance(n, ast.Assign) and dotted(n.targets[0]) == "matches" and "filter_generic(" in ast.unparse(n.value) and "graph" in ast.unparse(n.value)
-               and "filters" in ast.unparse(n.value) for n in walk_no_nested(clean.node))
-    r2.check(m_ok, ccon + "::matches", "matches = filter_generic(targets=graph, filters=filters)", "the matched targets are not computed by filter_generic over the graph", clean.where)
+    r2 = ctx.rule("R2", "selection: name filter iff targets given; endpoints excluded unless --all", min_instances=2)
+    want_name = "NameFilter(patterns=targets)"
+    want_ep = "EndpointFilter(endpoints=graph.endpoints(), mode='exclude')"
+    problems = []
+    seen_combo = set()
+    for tdom, adom, filters, calltxt in sem.selections:
+        for t in tdom:
+            for a in adom:
+                seen_combo.add((t, a))
+                exp = ([want_name] if t == "NONEMPTY" else []) + ([want_ep] if a is False else [])
+                if sorted(filters) != sorted(exp):
+                    problems.append(f"targets {'given' if t == 'NONEMPTY' else 'not given'}, --all {'on' if a else 'off'}: filters {list(filters)} (expected {exp})")
+        if "graph" not in calltxt:
+            problems.append(f"the filters are not applied to the graph's targets ({calltxt})")
+    if not sem.selections:
+        problems.append("no filter_generic(...) call computes the matched targets")
+    elif len(seen_combo) < 4:
+        problems.append("not every combination of (targets given, --all) reaches the selection")
+    r2.check(not problems, ccon + "::filters", "NameFilter(patterns=targets) iff targets are given; EndpointFilter(graph.endpoints(), mode='exclude') iff not --all",
+             "the selection of targets to clean is wrong: " + "; ".join(problems[:3]) + " - without --all the outputs of endpoint targets must be kept, and only named targets are cleaned",
+             clean.where)
+    m_ok = True
     epf = idx.func("gwf.filtering:EndpointFilter.predicate")
     pol = {}
     for n in walk_no_nested(epf.node):
@@ -187,16 +205,19 @@ def run(ctx):
             inv_ok = True
     r4.check(inv_ok, ccon + "::invalidate", "spec_hashes.invalidate(target) for target in matches", "the spec hashes of the cleaned targets are not invalidated one by one", clean.where)
     # the only way to skip an output is the protected branch
-    skips = [n for n in walk_no_nested(clean.node) if isinstance(n, (ast.Continue, ast.Break))]
+    del_loops = [lp for lp in walk_no_nested(clean.node) if isinstance(lp, ast.For) and any(c is e[1] for e in dels for c in _calls(lp))]
+    skips = [n for lp in del_loops for n in ast.walk(lp) if isinstance(n, (ast.Continue, ast.Break)) and not getattr(n, "_from_return", False)]
     bad_skip = []
     for n in skips:
         p = n._parent
-        ok = isinstance(p, ast.If) and ".protected()" in ast.unparse(p.test) and isinstance(n, ast.Continue)
+        from ..astutil import expand as _exp
+        ok = isinstance(p, ast.If) and ".protected()" in _exp(clean.node, p.test) and isinstance(n, ast.Continue)
         if not ok:
             bad_skip.append(n)
     r4.check(not bad_skip, ccon + "::skips", "the protected branch is the only skip in the output loop",
              "an output can be skipped (continue/break) for another reason than being protected: existing unprotected outputs would survive", loc(bad_skip[0], clean.module) if bad_skip else clean.where)
-    with_ok = any(isinstance(n, ast.With) and any("get_spec_hashes(" in ast.unparse(i.context_expr) for i in n.items) and any(
+    from ..astutil import expand as _exp2
+    with_ok = any(isinstance(n, ast.With) and any("get_spec_hashes(" in _exp2(clean.node, i.context_expr) for i in n.items) and any(
         isinstance(c.func, ast.Attribute) and c.func.attr == "invalidate" for c in _calls(n)) for n in walk_no_nested(clean.node))
     r4.check(with_ok, ccon + "::with", "invalidations happen inside the with-block of the hash store (saved on exit)",
              "the invalidations are not enclosed by the with-block of the spec-hash store", clean.where)
